@@ -29,9 +29,9 @@ type c18Case struct {
 func init() {
 	engine.Register(&engine.Check{
 		ID: "C18", Level: "exploration",
-		Rule: "d in {0,1,3,15} (quick) / 0..15 (thorough) x float lattice (every float with <=5 (quick) / <=7 (thorough) significant mantissa bits and exponent in [-70,70], both signs) placed in points; for every d in 0..15 and m in [-30,30] the decimal tie (m+1/2)*10^-d rounded to float64 and its +-1,+-2 ulp neighbours; 10^k-eps values, +-0, min denormal, 1e300; x one valid geometry per kind in XY/XYZ/XYM/XYZM (WKT) and XY/XYZ/XYZM (GeoJSON, without bbox and with bbox in both option orders) filled from the tie values. Oracle: every emitted number matches -?digits(.digits{1,d})? with no trailing zero; as an exact rational it differs from the exact input ordinate by <= 1/2*10^-d; the output parses (wkt.Unmarshal / JSON) to the same type, structure and number of ordinates; bbox numbers likewise against the exact min/max. distinct_nontrivial = distinct (codec, geometry, d, bbox) tuples",
-		Run:    c18Run,
-		Replay: func(c *engine.Ctx, kind string, raw json.RawMessage) { c18Exec(c, decodeCase[c18Case](raw)) },
+		Rule:        "d in {0,1,3,15} (quick) / 0..15 (thorough) x float lattice (every float with <=5 (quick) / <=7 (thorough) significant mantissa bits and exponent in [-70,70], both signs) placed in points; for every d in 0..15 and m in [-30,30] the decimal tie (m+1/2)*10^-d rounded to float64 and its +-1,+-2 ulp neighbours; 10^k-eps values, +-0, min denormal, 1e300; x one valid geometry per kind in XY/XYZ/XYM/XYZM (WKT) and XY/XYZ/XYZM (GeoJSON, without bbox and with bbox in both option orders) filled from the tie values. Oracle: every emitted number matches -?digits(.digits{1,d})? with no trailing zero; as an exact rational it differs from the exact input ordinate by <= 1/2*10^-d; the output parses (wkt.Unmarshal / JSON) to the same type, structure and number of ordinates; bbox numbers likewise against the exact min/max. distinct_nontrivial = distinct (codec, geometry, d, bbox) tuples Also: LinearRing values given to the WKT encoder directly (closed in X,Y only, fully closed, open) and polygon rings whose closing position carries its own M.",
+		Run:         c18Run,
+		Replay:      func(c *engine.Ctx, kind string, raw json.RawMessage) { c18Exec(c, decodeCase[c18Case](raw)) },
 		Assumptions: []string{"finite ordinates; math/big decimal parsing exact"},
 	})
 }
@@ -304,7 +304,7 @@ func c18Run(c *engine.Ctx) {
 			lat = append(lat, v, -v)
 		}
 	}
-	lat = append(lat, 0, math.Copysign(0, -1), math.SmallestNonzeroFloat64, -math.SmallestNonzeroFloat64, 1e300, -1e300, 123456789.987654321, 0.1, 0.2, 0.7, 1.005, 2.675, 1e15 + 0.5, 999999.9999995)
+	lat = append(lat, 0, math.Copysign(0, -1), math.SmallestNonzeroFloat64, -math.SmallestNonzeroFloat64, 1e300, -1e300, 123456789.987654321, 0.1, 0.2, 0.7, 1.005, 2.675, 1e15+0.5, 999999.9999995)
 	for k := -15; k <= 15; k++ {
 		v := math.Pow(10, float64(k))
 		lat = append(lat, math.Nextafter(v, 0), v, math.Nextafter(v, math.Inf(1)), v-v*1e-9, -(v - v*1e-9))
